@@ -476,6 +476,23 @@ pub fn run(tier: &str) -> i32 {
                     if let Some(la) = float_lit(a) {
                         forms.push(("literal-parameter", mixed(format!("f := (b: float) -> any {{ return {la} {op} b }}"), b), expect.clone()));
                     }
+                    // a comparison under `!` is the logical negation of its IEEE answer
+                    if ["<", "<=", ">", ">=", "==", "!="].contains(op) {
+                        if let Ref::Val(v) = &expect {
+                            let negated = Ref::Val(if v == "true" { "false".into() } else { "true".into() });
+                            let neg2 = match guard(|| Code::parse(&interp, &format!("f := (a: float, b: float) -> any {{ return !(a {op} b) }}"))) {
+                                Ok(Ok(code)) => match guard(|| code.exec()) {
+                                    Ok(Ok(Variable::Function(g))) => call(&g, vec![a.into(), b.into()]),
+                                    _ => Ref::Err("DEFINE FAILED"),
+                                },
+                                _ => Ref::Err("REJECTED"),
+                            };
+                            forms.push(("negated-parameter", neg2, negated.clone()));
+                            if let Some(lb) = float_lit(b) {
+                                forms.push(("negated-parameter-literal", mixed(format!("f := (a: float) -> any {{ return !(a {op} {lb}) }}"), a), negated.clone()));
+                            }
+                        }
+                    }
                     for (form, got, e) in forms {
                         acc.evals += 1;
                         acc.outcomes.insert(format!("{:?}", got).chars().take(24).collect());
